@@ -19,7 +19,7 @@ RULE = ('the real ProcessPoolDownloader object (download_file / shutdown / __exi
         'inside the notification) success => complete file in place and no temp file, failure/cancel => no temp file and destination '
         'untouched (or complete only if no data was written after the cancel returned); every future is done when shutdown / '
         'with-exit returns and no worker thread survives; Ctrl-C in the with-block leaves every download either finished or '
-        'CancelledError; non-trivial = at least one done notification was checked with a fault/cancel injected or >= 2 jobs; distinct = '
+        'CancelledError; plus one-preemption line windows over every statement of the monitor / transfer-state / worker / submitter code; non-trivial = at least one done notification was checked with a fault/cancel injected or >= 2 jobs; distinct = '
         '(shape incl. fault/cancel site, interleaving signature)')
 ASSUMPTIONS = ['interleavings between real processes are whatever the OS gives; the steered ones are the in-process replays',
                'a worker process dying is out of scope (no recovery path exists)',
